@@ -67,19 +67,56 @@ func sortedKeysAny(m map[string]any) []string {
 	return sortedKeys(b)
 }
 
+// deepCopyJSON copies an instance in whatever Go representation carries it (typed maps and slices,
+// arrays, pointers, interfaces): ApplyDefaults must get an instance that shares no memory with the
+// ones other goroutines validate.
 func deepCopyJSON(v any) any {
-	switch x := v.(type) {
-	case map[string]any:
-		n := make(map[string]any, len(x))
-		for k, e := range x {
-			n[k] = deepCopyJSON(e)
+	if v == nil {
+		return nil
+	}
+	return deepCopyValue(reflect.ValueOf(v)).Interface()
+}
+
+func deepCopyValue(v reflect.Value) reflect.Value {
+	switch v.Kind() {
+	case reflect.Map:
+		if v.IsNil() {
+			return v
+		}
+		n := reflect.MakeMapWithSize(v.Type(), v.Len())
+		it := v.MapRange()
+		for it.Next() {
+			n.SetMapIndex(it.Key(), deepCopyValue(it.Value()))
 		}
 		return n
-	case []any:
-		n := make([]any, len(x))
-		for i, e := range x {
-			n[i] = deepCopyJSON(e)
+	case reflect.Slice:
+		if v.IsNil() {
+			return v
 		}
+		n := reflect.MakeSlice(v.Type(), v.Len(), v.Len())
+		for i := 0; i < v.Len(); i++ {
+			n.Index(i).Set(deepCopyValue(v.Index(i)))
+		}
+		return n
+	case reflect.Array:
+		n := reflect.New(v.Type()).Elem()
+		for i := 0; i < v.Len(); i++ {
+			n.Index(i).Set(deepCopyValue(v.Index(i)))
+		}
+		return n
+	case reflect.Pointer:
+		if v.IsNil() {
+			return v
+		}
+		n := reflect.New(v.Type().Elem())
+		n.Elem().Set(deepCopyValue(v.Elem()))
+		return n
+	case reflect.Interface:
+		if v.IsNil() {
+			return v
+		}
+		n := reflect.New(v.Type()).Elem()
+		n.Set(deepCopyValue(v.Elem()))
 		return n
 	}
 	return v
@@ -216,6 +253,9 @@ func (c *ConcCase) runImpl() string {
 						cp = m
 					}
 					j, _ := json.Marshal(cp)
+					if e != nil {
+						j = nil
+					}
 					fmt.Fprintf(&b, "%v:%x;", e == nil, fnv(string(j)))
 				}
 				dflt[g] = b.String()
@@ -242,12 +282,20 @@ func (c *ConcCase) runImpl() string {
 			cp = m
 		}
 		j, _ := json.Marshal(cp)
+		if e != nil {
+			j = nil // what a failed ApplyDefaults leaves behind depends on the order the properties were visited in
+		}
 		fmt.Fprintf(&db, "%v:%x;", e == nil, fnv(string(j)))
 	}
 	lawSame, lawShared := "1", "1"
+	dbg := ""
 	for g := 0; g < G; g++ {
 		if vecs[g] != "" && vecs[g] != seq {
 			lawSame = "0"
+			dbg += fmt.Sprintf("g%d:vec:%s/%s;", g, vecs[g], seq)
+		}
+		if g%4 == 3 && dflt[g] != db.String() {
+			dbg += fmt.Sprintf("g%d:dflt:%s/%s;", g, dflt[g], db.String())
 		}
 		if g%4 == 2 && shared[g] != sshared {
 			lawShared = "0"
@@ -257,7 +305,7 @@ func (c *ConcCase) runImpl() string {
 		}
 	}
 	_ = bytes.Equal
-	return base + fmt.Sprintf(" law_conc_same=%s law_conc_shared_ops=%s impl_conc=ok.structs%d", lawSame, lawShared, nstruct)
+	return base + fmt.Sprintf(" law_conc_same=%s law_conc_shared_ops=%s impl_conc=ok.structs%d impl_dbg=%s", lawSame, lawShared, nstruct, dbg)
 }
 
 func init() {
